@@ -292,6 +292,9 @@ def negative_controls(pid, traces, verdicts, rng, want=3):
 
 
 # ---------------------------------------------------------------------------
+DEFAULT_MBT_LIMIT = {("eval", "thorough"): 40000, ("inh", "thorough"): 16000}
+
+
 def run_mc(cfg, tier, seed):
     """Design-level model checking of the algorithm-layer module + spec->code replay
     of the histories it enumerates.  Returns (mc result, replayed traces, verdicts)."""
@@ -305,15 +308,15 @@ def run_mc(cfg, tier, seed):
     try:
         inst = instances.write_instance(module, tier, ipath, seed)
         env = {"MC_INSTANCE": ipath}
-        r = tlc.run_tlc(module, cfg=cfgfile, env=env, workers=NCPU, timeout=3000)
+        r = tlc.run_tlc(module, cfg=cfgfile, env=env, workers=NCPU, timeout=3000 if tier == "quick" else 14400)
         # spec -> code: every history of MaxOps operations (BFS, exhaustive)
         mbtcfg = "MBT_%s.cfg" % module
-        rb = tlc.run_tlc(module, cfg=mbtcfg, env=env, workers=NCPU, timeout=3000)
+        rb = tlc.run_tlc(module, cfg=mbtcfg, env=env, workers=NCPU, timeout=3000 if tier == "quick" else 7200)
         hists = [json.loads(tlc.tla_to_py(t)[1]) for t in tlc._match_tuples(rb["out"], "MBT")]
         # one level deeper, restricted to the history shapes that matter for this property
         extra = []
         for xcfg in cfg.get("mbt_extra", {}).get(tier, []):
-            rx = tlc.run_tlc(module, cfg=xcfg, env=env, workers=NCPU, timeout=3000)
+            rx = tlc.run_tlc(module, cfg=xcfg, env=env, workers=NCPU, timeout=3000 if tier == "quick" else 7200)
             extra += [json.loads(tlc.tla_to_py(t)[1]) for t in tlc._match_tuples(rx["out"], "MBT")]
         xlimit = cfg.get("mbt_extra_limit", {}).get(tier)
         if xlimit and len(extra) > xlimit:
@@ -326,7 +329,8 @@ def run_mc(cfg, tier, seed):
                              timeout=1200, extra=["-depth", "400", "-seed", str(seed)],
                              simulate="num=1500")
             hists += [json.loads(tlc.tla_to_py(t)[1]) for t in tlc._match_tuples(rs["out"], "MBT")]
-        seen, jobs = set(), []
+        seen, jobs, first = set(), [], []
+        ncur = inst.get("curated", 0)       # initial states that are always replayed in full
         for h in hists:
             key = json.dumps(h, sort_keys=True)
             if key in seen:
@@ -338,11 +342,17 @@ def run_mc(cfg, tier, seed):
             else:
                 defs = inst["inits"][h[0]["id"] - 1]
                 ops = h[1:] + sweep_ops(defs)
-            jobs.append((defs, ops, dict(cfg.get("mbt_opts", {"deep": True}))))
-        limit = cfg.get("mbt_limit", {}).get(tier)
-        if limit and len(jobs) > limit:
+            job = (defs, ops, dict(cfg.get("mbt_opts", {"deep": True})))
+            if module not in instances.TRANSLATE and h[0]["id"] <= ncur and len(h) <= 3:
+                first.append(job)
+            else:
+                jobs.append(job)
+        # replay budget (thorough enumerations exceed what can be executed on the code)
+        limit = cfg.get("mbt_limit", {}).get(tier) or DEFAULT_MBT_LIMIT.get((cfg["engine"], tier))
+        if limit and len(jobs) + len(first) > limit:
             random.Random(seed).shuffle(jobs)
-            jobs = jobs[:limit]
+            jobs = jobs[:max(0, limit - len(first))]
+        jobs = first + jobs
         traces = pl.produce(pl.replay_ops_trace, jobs, procs=NCPU)
         verdicts, stats = pl.judge(traces, batch_size=max(20, len(traces) // (NCPU * 2) + 1),
                                    procs=NCPU) if traces else ([], {})
